@@ -65,7 +65,7 @@ Lemma sem_cmp z o : exists m, cmp_sem (fixed_cfg z) gen_cmp o = Some m /\
               | ROk b1 _, ROk b2 _ => b1 = b2
               | _, _ => False
               end.
-Proof. destruct o; eexists; (split; [reflexivity|]); intros [?|] [?|]; cbv; reflexivity. Qed.
+Proof. destruct o; eexists; (split; [reflexivity|]); intros [?|] [?|]; cbv -[pkey N.eqb N.ltb N.leb]; reflexivity. Qed.
 
 Lemma sem_layout :
   lf_alignas_payload gen_lay = true /\ lf_flag_default_false gen_lay = true /\
